@@ -92,7 +92,10 @@ Ev ==
               /\ scans' = IF p \in DOMAIN scans THEN scans ELSE Put(scans, p, [base |-> RowsNow(st, ops[p].t), writes |-> {}])
               /\ UNCHANGED <<st, ops, exp, holder, pend>>
          ELSE /\ holder = NoneP /\ readers = {} /\ holder' = p
-              /\ UNCHANGED <<st, ops, exp, readers, scans, pend>>
+              \* a GC pass remembers the rows it started with, the rows it has collected and what changes meanwhile
+              /\ scans' = IF ops[p].ev = "GcPass" /\ p \notin DOMAIN scans
+                          THEN Put(scans, p, [base |-> RowsNow(st, ops[p].t), writes |-> {}, done |-> {}]) ELSE scans
+              /\ UNCHANGED <<st, ops, exp, readers, pend>>
     [] e.pt = "relocked" ->
          IF ops[p].ev = "ReadRows" THEN holder = NoneP /\ readers' = readers \cup {p} /\ UNCHANGED <<st, ops, exp, holder, scans, pend>>
          ELSE holder = NoneP /\ readers = {} /\ holder' = p /\ UNCHANGED <<st, ops, exp, readers, scans, pend>>
@@ -130,7 +133,17 @@ Ev ==
                       /\ exp' = Put(exp, p, [ok |-> TRUE, code |-> 0, entries |-> stats])
                       \* the entries that did not commit are ones the specification says fail, in the state they met
                       /\ UNCHANGED <<st, scans>>
-                 ELSE IF ops[p].ev = "GcPass" THEN exp' = Put(exp, p, OkResp) /\ UNCHANGED <<st, scans>>
+                 ELSE IF ops[p].ev = "GcPass"
+                      THEN \* the pass is complete: every row that was there when it began and that nobody touched meanwhile
+                           \* has either been collected (a gc.row event) or holds nothing the rules condemn
+                           /\ exp' = Put(exp, p, OkResp) /\ UNCHANGED st
+                           /\ (p \in DOMAIN scans) =>
+                                 LET t == ops[p].t
+                                     touched == {w[1] : w \in scans[p].writes}
+                                 IN (\A k \in (DOMAIN scans[p].base) \ (scans[p].done \cup touched) :
+                                        k \in DOMAIN RowsNow(st, t) =>
+                                          GcRow(RowsNow(st, t)[k], st.tables[t].fams, ops[p].now) = RowsNow(st, t)[k]) = TRUE
+                           /\ scans' = IF p \in DOMAIN scans THEN Del(scans, p) ELSE scans
                  ELSE IF pend[p].committed THEN UNCHANGED <<st, exp, scans>>
                  ELSE \* ended without a commit: must be a request BtData fails (or one that changes nothing)
                       \E o \in Step(st, ops[p]) : (~o.resp.ok \/ o.st = st) /\ exp' = Put(exp, p, o.resp) /\ UNCHANGED <<st, scans>>
@@ -141,7 +154,8 @@ Ev ==
             IF t \in DOMAIN st.tables /\ e.k \in DOMAIN st.tables[t].rows
             THEN st' = WithRow(st, t, e.k, GcRow(st.tables[t].rows[e.k], st.tables[t].fams, ops[p].now))
             ELSE st' = st
-         /\ scans' = NoteWrites(st, st')
+         /\ scans' = LET nw == NoteWrites(st, st') IN
+                     IF p \in DOMAIN nw THEN [nw EXCEPT ![p].done = @ \cup {e.k}] ELSE nw
          /\ UNCHANGED <<ops, exp, holder, readers, pend>>
     [] e.pt = "direct" ->            \* a request without instrumentation (table admin): atomic at this point
          /\ holder = NoneP /\ readers = {}
